@@ -22,7 +22,23 @@ class Oracle:
     def decide(self, cond):
         key = repr(cond.t)
         if key in self.assumed: return self.assumed[key]      # a stated precondition of the code under test (e.g. `assert alpha0 > 0`)
-        # declared-positive symbols (yields, uncertainties) against a non-positive constant
+        # declared-positive symbols (yields, uncertainties): expressions built from them by + × ÷, positive constants, powers and square
+        # roots are positive; such an expression compared with a non-positive constant is decided
+        if self.positive:
+            def pos(s_):
+                t = s_.t
+                if t[0] == 'var': return t[1] in self.positive
+                if t[0] == 'const': return t[1] > 0
+                if t[0] in ('add', 'mul', 'div'): return pos(t[1]) and pos(t[2])
+                if t[0] == 'pow': return pos(t[1])
+                if t[0] == 'sqrt': return pos(t[1])
+                return False
+            nonpos_c = lambda s_: s_.t[0] == 'const' and s_.t[1] <= 0
+            k1, a1, b1 = cond.t
+            if k1 in ('lt', 'le') and nonpos_c(a1) and pos(b1): return True
+            if k1 in ('lt', 'le') and pos(a1) and nonpos_c(b1): return False
+            if k1 == 'eq' and ((pos(a1) and nonpos_c(b1)) or (nonpos_c(a1) and pos(b1))): return False
+            if k1 == 'ne' and ((pos(a1) and nonpos_c(b1)) or (nonpos_c(a1) and pos(b1))): return True
         if self.positive:
             isv = lambda s: s.t[0] == 'var' and s.t[1] in self.positive
             nonpos = lambda s: s.t[0] == 'const' and s.t[1] <= 0
